@@ -93,6 +93,12 @@ def probe(text):
         for sep in SEPS:
             path.separator = sep
             str(path)
+        # a separator forced before the path is first read
+        for sep in SEPS:
+            lazy = YAMLPath(text)
+            lazy.separator = sep
+            lazy.escaped        # pylint: disable=pointless-statement
+            lazy.unescaped      # pylint: disable=pointless-statement
         types = []
         for (stype, attrs) in esc:
             types.append(stype.name)
